@@ -15,8 +15,8 @@ func TestMain(m *testing.M) {
 	os.Exit(code)
 }
 
-var rs = []int64{0, 0, 5, 50, 50, 3600e9, 36000000e9}
-var ds = []int64{0, 0, 3, 5, 50, 80, 1800e9, 36000000e9}
+var rs = []int64{0, 0, 5, 50, 50, 3600e9, 36000000e9, 5, 50, -1, -1e9}
+var ds = []int64{0, 0, 3, 5, 50, 80, 1800e9, 36000000e9, 3, 50, -1, -1e9}
 
 func genOp(n int) *rapid.Generator[Op] {
 	return rapid.Custom(func(t *rapid.T) Op {
@@ -104,6 +104,11 @@ func genCase0(t *rapid.T) *Case {
 		R:    rapid.SampledFrom(rs).Draw(t, "R"),
 		D:    rapid.SampledFrom(ds).Draw(t, "D"),
 		Init: append([]int{}, rapid.Permutation([]int{0, 1, 2, 3, 4}).Draw(t, "init")[:n]...),
+	}
+	if rapid.IntRange(0, 7).Draw(t, "dupinit") == 0 {
+		// the initial list names an endpoint twice
+		k := rapid.IntRange(0, len(c.Init)-1).Draw(t, "dupwhich")
+		c.Init = append(c.Init, c.Init[k])
 	}
 	c.Ops = rapid.SliceOfN(genOp(n), 1, 40).Draw(t, "ops")
 	if rapid.IntRange(0, 9).Draw(t, "emptyFirst") == 0 {
